@@ -1300,7 +1300,7 @@ where
         );
         let mut count = match n.cmp(&0) {
             cmp::Ordering::Greater => self.count.fetch_add(n, Ordering::SeqCst) + n,
-            cmp::Ordering::Less => self.count.fetch_sub(n.abs(), Ordering::SeqCst) - n,
+            cmp::Ordering::Less => self.count.fetch_sub(n.abs(), Ordering::SeqCst) + n,
             cmp::Ordering::Equal => self.count.load(Ordering::SeqCst),
         };
 
